@@ -42,3 +42,32 @@ func init() {
 	verifHarnesses["HHostileFilter"] = HHostileFilter
 	verifHarnesses["HHostileRequests"] = HHostileRequests
 }
+
+// HSenderDry (C10, sender half): in a dry run the sender answers every request with the
+// index echo only - no header, no literal data, no checksum.
+func HSenderDry() {
+	k := vparam("k")
+	var in []byte
+	for i := 0; i < k; i++ {
+		in = putI32(in, int32(nd_range(0, 1)))
+	}
+	in = putI32(in, -1)
+	in = putI32(in, -1)
+	conn := newVconn(in)
+	st := newSenderTransfer(conn, nd_i32(), rsyncopts.VerifFlags{Server: true, Sender: true, DryRun: true})
+	src := &oneFileSource{data: nd_bytes(3)}
+	fl := &fileList{Files: []file{
+		{source: src, path: "a", Wpath: "a", regular: true, Length: 3},
+		{source: src, path: "b", Wpath: "b", regular: true, Length: 3},
+	}}
+	err := st.SendFiles(fl)
+	vassert(err == nil, "dry-run sender failed")
+	out := conn.out
+	vassert(len(out) == 4*k+8, "dry-run sender wrote more than the index echoes and phase markers")
+	for i := 0; i < k; i++ {
+		vassert(getI32(out, 4*i) == getI32(in, 4*i), "index echo")
+	}
+	vreach("ok")
+}
+
+func init() { verifHarnesses["HSenderDry"] = HSenderDry }
